@@ -462,7 +462,7 @@ class RandSchema:
             fields.append({"num": nums[i], "name": fname, "t": rt})
             used += nb
         decl = {"d": "message", "name": name, "ext": ext, "body": mybody}
-        rt = {"k": "msg", "name": name, "ext": ext, "fields": fields, "_decl": decl}
+        rt = {"k": "msg", "name": name, "ext": ext, "fields": fields, "_decl": decl, "_uid": self.fresh("u")}
         if how == "nested":
             body.append(decl)
         else:
